@@ -16,7 +16,7 @@ RULE = ("the 14 existing Cvt*/Normalize* commands x arrays with >=2 distinct val
         "thresholds asc/desc/inside/outside the data range, defaults with both directions, category tables hitting/missing the data, "
         "curves with 1-6 control points in random order, z-score vectors, IgnoreZeros both ways; distinct by (command, dtype, rank, "
         "mask class, parameter-shape class)")
-REQUIRED_COUNTERS = ["ref_postconditions", "variant_checks", "inverse_checks", "monotone_checks", "numpy_scalar_parameter_cases", "written_results_read_back"]
+REQUIRED_COUNTERS = ["large_rasters_converted", "tuple_parameter_cases", "ref_postconditions", "variant_checks", "inverse_checks", "monotone_checks", "numpy_scalar_parameter_cases", "written_results_read_back"]
 ASSUMPTIONS = ["NormalizeZScore default thresholds, StartVal >= EndVal, equal thresholds, duplicate raw values, constant arrays and "
                "non-increasing mean-to-mid control points are don't-care (documentation silent or inconsistent)",
                "population standard deviation (ddof=0)", "float32 inputs compared with 2e-5 relative tolerance"]
@@ -84,7 +84,23 @@ def cases(ctx):
             vals = [rng.randint(-8, 8) / 8.0 for _ in range(k)]
             c["params"] = {"RawValues": raws, "FuzzyValues" if cmd == "CvtToFuzzyCat" else "NormalValues": vals,
                            "DefaultFuzzyValue" if cmd == "CvtToFuzzyCat" else "DefaultNormalValue": rng.randint(-8, 8) / 8.0}
+        if cmd in ("NormalizeMeanToMid", "CvtToFuzzyMeanToMid") and rng.random() < 0.3:
+            # one outlier far above (or below) everything else: an end control point coincides with its neighbour
+            s = c["inputs"][0]
+            hi_ = rng.random() < 0.6
+            vals_ = [rng.choice([0, 25, 88, 3, 40]) for _ in s["data"]]
+            pos_ = [j for j in range(len(vals_)) if not (s["mask"] and s["mask"][j])]
+            if len(pos_) >= 3:
+                vals_[pos_[0]] = 999 if hi_ else -999
+                s["data"] = [v if s["dtype"].startswith("int") else float(v) for v in vals_]
+                if s["dtype"] in ("int8", "uint8", "uint16", "uint32", "uint64"):
+                    s["dtype"] = "int64"
+                c.pop("narrow", None)
         yield c
+    from mpv import big
+    for i in range(ctx.n(3, 40)):
+        j = i * ctx.nshards + ctx.shard
+        yield {"kind": "big", "cmd": ["CvtToFuzzy", "Normalize", "CvtToFuzzy", "Normalize", "CvtToFuzzy"][j % 5], "variant": j % 5, "shape": list(big.SHAPES[(j * 3 + 1) % len(big.SHAPES)]), "rseed": rng.randrange(10 ** 9)}
 
 
 def _pclass(cmd, p):
@@ -112,7 +128,60 @@ def _as_numpy(params, how):
     return {k: ([one(x) for x in v] if isinstance(v, list) else one(v)) for k, v in params.items()}
 
 
+def run_big(ctx, case):
+    """Conversions whose thresholds come from the data itself, on rasters of more than a million cells: the cells at sampled
+    places (head, tail, around the 2^20th cell, random) equal what the command gives for a small field made of those cells
+    plus the field's smallest and largest cell (same thresholds, same per-cell arithmetic)."""
+    from mpv import big
+    cmd = case["cmd"]
+    params = [{}, {}, {"Direction": "HighToLow"}, {"StartVal": 2, "EndVal": 10}, {"Direction": "LowToHigh"}][case["variant"]]
+    shape = tuple(case["shape"])
+    rs = numpy.random.RandomState(case["rseed"] % (2 ** 31))
+    n = int(numpy.prod(shape))
+    # a ramp with noise (so that blocks of the raster have different ranges), a tenth of the cells missing
+    data = (numpy.arange(n, dtype="float64") / 1024.0 + numpy.round(rs.uniform(-50, 50, size=n) * 8) / 8.0).reshape(shape)
+    if case["variant"] % 2:
+        data = data[..., ::-1].copy()
+    field = numpy.ma.array(data, mask=rs.uniform(size=shape) < 0.1)
+    ctx.feature(("big", cmd, tuple(sorted(params)), len(shape), n > 2 ** 20))
+    out, prog = arr.run_cmd(cmd, [field], params)
+    ctx.count("large_rasters_converted")
+    if not out.ok:
+        ctx.fail("%s:raises-%s:large-raster" % (cmd, out.inner() or out.err), {"shape": list(shape), "params": params})
+        return
+    res = out.value
+    if not isinstance(res, numpy.ndarray) or res.shape != shape:
+        ctx.fail("%s:shape:large-raster" % cmd, {"got": list(getattr(res, "shape", [])), "want": list(shape)})
+        return
+    flat_in = field.reshape(-1)
+    flat_out = res.reshape(-1)
+    idx = set()
+    for a, b in big.windows(n, case["rseed"], width=300):
+        idx.update(range(a, b))
+    idx.update(int(x) for x in rs.randint(0, n, size=1500))
+    idx.update([int(numpy.ma.argmin(flat_in)), int(numpy.ma.argmax(flat_in))])
+    idx = numpy.array(sorted(idx))
+    small = numpy.ma.array(numpy.ma.getdata(flat_in)[idx], mask=numpy.ma.getmaskarray(flat_in)[idx])
+    sout, _ = arr.run_cmd(cmd, [small], params)
+    if not sout.ok:
+        ctx.note_inconclusive("%s on the sampled cells raises %s" % (cmd, sout.err))
+        return
+    ctx.count("ref_postconditions")
+    gm, wm = numpy.ma.getmaskarray(flat_out)[idx], numpy.ma.getmaskarray(sout.value)
+    if not numpy.array_equal(gm, wm):
+        k = int(numpy.nonzero(gm != wm)[0][0])
+        ctx.fail("%s:%s:large-raster" % (cmd, "valid-cell-missing" if gm[k] else "missing-cell-present"), {"cell": int(idx[k]), "shape": list(shape), "params": params})
+        return
+    g, w = numpy.ma.getdata(flat_out)[idx], numpy.ma.getdata(sout.value)
+    diff = numpy.where(wm, 0.0, numpy.abs(g - w))
+    if diff.max() > 1e-9 * max(1.0, float(numpy.abs(w[~wm]).max())):
+        k = int(numpy.argmax(diff))
+        ctx.fail("%s:value:large-raster" % cmd, {"cell": int(idx[k]), "got": float(g[k]), "want": float(w[k]), "input_cell": float(numpy.ma.getdata(flat_in)[idx[k]]), "shape": list(shape), "params": params})
+
+
 def run_case(ctx, case):
+    if case.get("kind") == "big":
+        return run_big(ctx, case)
     cmd, params = case["cmd"], case["params"]
     fuzzy_in = cmd in arr.FUZZY_INPUT
     inputs = [arr.build(s) for s in case["inputs"]]
@@ -124,6 +193,10 @@ def run_case(ctx, case):
         ctx.count("numpy_scalar_parameter_cases")
         if how == "float32":
             case = dict(case, _single_precision_params=True)     # NumPy then computes with them in single precision
+    if (len(case["inputs"][0]["data"]) * 3 + len(params)) % 5 == 1 and any(isinstance(v, list) for v in call_params.values()):
+        # lists of numbers handed over as tuples (the programming interface takes any sequence)
+        call_params = {k: (tuple(v) if isinstance(v, list) else v) for k, v in call_params.items()}
+        ctx.count("tuple_parameter_cases")
     dt = case["inputs"][0]["dtype"]
     ctx.feature((cmd, dt, len(case["inputs"][0]["shape"]), bool(case["inputs"][0]["mask"] and any(case["inputs"][0]["mask"])), _pclass(cmd, params)))
     out, prog = arr.run_cmd(cmd, inputs, call_params, fuzzy_inputs=fuzzy_in)
